@@ -7,6 +7,7 @@ Prod(X) <= Acc(X) and Wire(Prod(X)) <= Acc(X).  Plus constant agreement of the a
 for bool / none / unit and the enum-variant shapes.
 """
 from ..core import callee_of, callee_names, is_call_to, unwrap, exclusive_blocks, fold
+import re
 from ..ranges import Ranges, canon, ty_range, INT
 from ..families import check_casts, check_panics, bodies_of_fn
 from ..etf import dispatch_table, DEC, ENC, OWNED, encoder_dispatch, tags_of, writer_paths
@@ -399,3 +400,47 @@ def run(ctx):
     from ..families import check_error_swallow as _swallow
     ctx.rule('C15.6-errors-surface', 'in the functions of this property that can themselves report failure, the Result of one of the repository\'s own fallible functions is never turned into "nothing" or a default (ok(), unwrap_or*, map_or*): an error must surface as an error, not as a value the callee never produced; a rule about what must not be there (exercised on the fixture every run)', floor=0)
     _swallow(ctx, P, 'C15.6-errors-surface', ('erltf_serde::ser::', 'erltf_serde::de::', 'erltf_serde::lib', 'erltf_serde::to_', 'erltf_serde::from_'))
+
+    # the digits of a big integer are as many as the number needs (the wire form is trimmed): nothing may insist on exactly 8
+    ctx.rule('C15.2-bigint-any-length', 'no deserialiser converts the digit vector of a big integer into a fixed-size array ([u8; N]::try_from / try_into): the conversion succeeds only for exactly N digits, '
+             'and a u64 between 2^31 and 2^56 comes back from the wire with 4 to 7', floor=0)
+    n_ba = 0
+    for q in sorted(ctx.F.bodies):
+        if 'erltf_serde::de' not in q:
+            continue
+        DB = P.B(q)
+        for bb, t in DB.calls():
+            nm = callee_of(t)[0] or ''
+            if not (nm.endswith('TryFrom::try_from') or nm.endswith('TryInto::try_into')):
+                continue
+            dty = DB.local_ty(t['dst']['l']) if not t['dst'].get('p') else ''
+            if not re.search(r'Result<\[u8; \d+\]', dty):
+                continue
+            src = str(canon(DB, t['args'][0])) + str(DB.origin(t['args'][0]))
+            if "'digits'" in src or 'digits' in src:
+                n_ba += 1
+                ctx.bad('C15.2-bigint-any-length', '%s:try_from' % q.split('::{')[0].rsplit('::', 1)[-1], 'the digits of the big integer are converted into %s: only a digit vector of exactly that length is accepted, shorter (trimmed) ones are refused'
+                        % re.search(r'\[u8; \d+\]', dty).group(0), ctx.where(DB, bb), key='SHAPE:%s:digits-fixed-length' % q.split('::{')[0])
+    if n_ba == 0:
+        ctx.ok('C15.2-bigint-any-length', 'de', 'no fixed-size conversion of big-integer digits')
+
+    # every f32 widens to an f64 (the infinities included): a magnitude test that refuses doubles must let the infinities through
+    ctx.rule('C15.2-float-infinities', 'where a float deserialiser compares the magnitude of the double it received against a bound, the same function also tests for (in)finiteness: '
+             'abs(f) > f32::MAX is true of the infinities, which are values of f32', floor=0)
+    n_fi = 0
+    for q in sorted(ctx.F.bodies):
+        base = q.split('::{')[0]
+        if 'erltf_serde::de' not in q or not (base.endswith('::deserialize_f32') or base.endswith('::deserialize_f64')):
+            continue
+        DB = P.B(q)
+        cmps = [(bb, st) for bb, j, st in DB.stmts() if st['k'] == '=' and st['rv']['k'] == 'bin' and st['rv']['op'] in ('Lt', 'Le', 'Gt', 'Ge') and st['rv'].get('ty') in ('f64', 'f32')]
+        fin = [bb for bb, t in DB.calls() if (callee_of(t)[0] or '').rsplit('::', 1)[-1] in ('is_finite', 'is_infinite')]
+        for bb, st in cmps:
+            n_fi += 1
+            if fin:
+                ctx.ok('C15.2-float-infinities', '%s:cmp' % base.rsplit('::', 1)[-1], 'magnitude test accompanied by a finiteness test', ctx.where(DB, ln=st['ln']))
+            else:
+                ctx.bad('C15.2-float-infinities', '%s:cmp' % base.rsplit('::', 1)[-1], '%s compares the magnitude of the received double with a bound but never asks whether it is finite: +/-infinity, a value of the target type, takes the out-of-range branch'
+                        % base.rsplit('::', 1)[-1], ctx.where(DB, ln=st['ln']), key='SHAPE:%s:magnitude-test-without-finiteness' % base)
+    if n_fi == 0:
+        ctx.ok('C15.2-float-infinities', 'de', 'the float deserialisers apply no magnitude test')
